@@ -14,7 +14,21 @@ BT = "magpylib/_src/obj_classes/class_BaseTransform.py"
 BG = "magpylib/_src/obj_classes/class_BaseGeo.py"
 
 # (property, name, file, old, new, expect)   expect: "red" | "equivalent" (must stay green)
+FD = "magpylib/_src/fields/"
 MUTANTS = [
+    ("C02", "cuboid-H-not-on-edge", FD + "field_BH_cuboid.py", "        BHJM[mask_inside] -= polarization[mask_inside]\n",
+     "        BHJM[mask_inside & mask_not_edge] -= polarization[mask_inside & mask_not_edge]\n", "red"),
+    ("C02", "sphere-H-two-thirds", FD + "field_BH_sphere.py", "        BHJM[~out] -= polarization[~out]\n", "        BHJM[~out] -= polarization[~out] * (2 / 3)\n", "red"),
+    ("C02", "cylinder-M-unmasked", FD + "field_BH_cylinder.py", '    if field == "M":\n        BHJM[~mask_inside] = 0\n', '    if field == "M":\n', "red"),
+    ("C02", "dipole-B-literal-mu0", FD + "field_BH_dipole.py", "        return BHJM * MU0", "        return BHJM * (4 * np.pi * 1e-7)", "red"),
+    ("C02", "triangle-J-pol", FD + "field_BH_triangle.py", '    if field == "J":\n        return BHJM\n', '    if field == "J":\n        return polarization.astype(float)\n', "red"),
+    ("C02", "tetra-B-minus", FD + "field_BH_tetrahedron.py", "        BHJM[mask_inside] += polarization[mask_inside]", "        BHJM[mask_inside] -= polarization[mask_inside]", "red"),
+    ("C02", "sphere-module-mu0", FD + "field_BH_sphere.py", "from scipy.constants import mu_0 as MU0", "MU0 = 4 * np.pi * 1e-7", "red"),
+    ("C02", "segment-B-no-mu0", FD + "field_BH_cylinder_segment.py", "        BHJM *= MU0\n        BHJM[mask_inside] += polarization[mask_inside]", "        BHJM[mask_inside] += polarization[mask_inside]", "red"),
+    ("C02", "segment-internal-hollow-plus", FD + "field_BH_cylinder_segment.py", "    BHfinal[mask2] -= BHJM_magnet_cylinder(", "    BHfinal[mask2] += BHJM_magnet_cylinder(", "red"),
+    ("C02", "cylinder-inside-strict-hull", FD + "field_BH_cylinder.py", "    mask_inside_hull = r <= 1  # inside Cylinder hull plane", "    mask_inside_hull = r < 1", "equivalent"),
+    ("C02", "setter-magnetization-factor", "magpylib/_src/obj_classes/class_BaseExcitations.py", "self._magnetization * (4 * np.pi * 1e-7)", "self._magnetization * (4 * np.pi * 1e-6)", "red"),
+    ("C02", "circle-B-factor", FD + "field_BH_circle.py", "        return BHJM * MU0", "        return BHJM * MU0 * 1.0000001", "red"),
     ("C09", "neg-start-off-by-one", BT, "        start = lenop + start\n", "        start = lenop + start - 1\n", "red"),
     ("C09", "scalar-end", BT, "    end = len(ppath) if scalar_input else start + lenip", "    end = start + lenip", "red"),
     ("C09", "pad-behind-ge", BT, "    if start + lenip > lenop + pad_before:", "    if start + lenip >= lenop + pad_before:", "equivalent"),
